@@ -491,3 +491,70 @@ MODULES["NewtonC"] = dict(
              result_enum=dict(ty="nres_cv", ok="NOk", err="NErr", ok_ty="cvec", err_ty="cvec")),
         dict(name="jacobian_cmplx", file=M_FUN, impl=r"^Matrix<Cmplx>$", fn="jacobian_cmplx"),
     ])
+
+# ---------------------------------------------------------------------------------------------------- Mesh (Model/Mesh.v): round two
+# src/mesh1d.rs, src/mesh2d.rs: storage paths, interpolation loop, trapezium rules (file I/O -- read/output/output_var -- and
+# the place-returning index_mut are not translated).  Sorts: "xelem" = the coordinate type X of Mesh1D<T, X> (only stored and
+# copied), "xvec" = Vector<X>, "vv" = Vec<Vector<T>>; "m1" = Mesh1D<T, X>, "m1f" = Mesh1D<T, f64> / Mesh1D<f64, f64>,
+# "m2" = Mesh2D<T> / Mesh2D<f64> (nodes are Vector<f64>: the model's X := T A).
+# The literals 0.5, 0.25, 1.0e-7 are the model's parameters half, quarter, snap (Section variables of gen/SrcMesh.v; their
+# values are tied by gen/Params.v and by the instances the checks run); f64::powf(v, 2.0) is read as v * v (Model/Mesh.v).
+_r.LISTS["xvec"] = "xelem"; _r.LISTS["vv"] = "vec"
+GTYPES.update({"xelem": "X", "xvec": "(list X)", "vv": "(list (list (T A)))", "m1": "(mesh1 A X)", "m1f": "(mesh1 A (T A))", "m2": "(mesh2 A (T A))"})
+RUST_TYPES += [(r"^X$", "xelem"), (r"^Vector<X>$", "xvec"), (r"^Vec<Vector<(T|f64)>>$", "vv"), (r"^Mesh1D<T,X>$", "m1"),
+               (r"^Mesh1D<(T|f64),f64>$", "m1f"), (r"^Mesh2D<(T|f64)>$", "m2")]
+for _m, _nt in (("m1", "xvec"), ("m1f", "vec")):
+    FIELDS.update({(_m, "nvars"): ("(m1_nvars {0})", "usize"), (_m, "nodes"): ("(m1_nodes {0})", _nt), (_m, "vars"): ("(m1_vars {0})", "vv")})
+    SETFIELDS.update({(_m, "vars"): "(mkM1 (m1_nvars {0}) (m1_nodes {0}) {1})"})
+    METHODS.update({(_m, "get_nodes_vars", 1): dict(g="get_nodes_vars1 {0} {1}", ret="vec", fallible=True, args=["usize"]),
+                    (_m, "set_nodes_vars", 2): dict(g="set_nodes_vars1 {0} {1} {2}", ret="unit", fallible=True, out=["recv"], args=["usize", "vec"])})
+_M2F = ["nvars", "nx", "ny", "x_nodes", "y_nodes", "vars"]
+_M2G = {"nvars": "m2_nvars", "nx": "m2_nx", "ny": "m2_ny", "x_nodes": "m2_x", "y_nodes": "m2_y", "vars": "m2_vars"}
+_M2T = {"nvars": "usize", "nx": "usize", "ny": "usize", "x_nodes": "vec", "y_nodes": "vec", "vars": "vv"}
+for _f in _M2F:
+    FIELDS[("m2", _f)] = ("(%s {0})" % _M2G[_f], _M2T[_f])
+SETFIELDS[("m2", "vars")] = "(with_vars2 {0} {1})"
+STRUCTS["Mesh1D"] = (["nvars", "nodes", "vars"], "(mkM1 {0} {1} {2})", "m1")
+STRUCTS["Mesh2D"] = (_M2F, "(mkM2 {0} {1} {2} {3} {4} {5})", "m2")
+METHODS.update({
+    ("xvec", "size", 0): dict(g="length {0}", ret="usize"),
+    ("vv", "push", 1): dict(g="{0} ++ [{1}]", ret="unit", out=["recv"], args=["vec"]),
+    ("m2", "get_nodes_vars", 2): dict(g="get_nodes_vars2 {0} {1} {2}", ret="vec", fallible=True, args=["usize", "usize"]),
+})
+MS1, MS2 = "src/mesh1d.rs", "src/mesh2d.rs"
+M1_GEN = r"^<T:Clone\+Number,X:Clone\+Number\+Copy>Mesh1D<T,X>$"
+M2_GEN = r"^<T:Clone\+Number>Mesh2D<T>$"
+MODULES["Mesh"] = dict(
+    imports="From OV Require Import Base.Panic Base.Arith Model.Vector Model.Matrix Model.Mesh gen.SrcPrelude.",
+    context=["Context {A : Arith} {X : Type}.", "Variables (half quarter snap : T A)."],
+    spec=dict(lit2=True, literals={"0.5": "half", "0.25": "quarter", "1.0e-7": "snap"},
+              paths={("Mesh1D::new", 2): dict(g="mesh1_new {0} {1}", ret="m1f", args=["vec", "usize"]),
+                     ("f64::powf", 2): dict(g="mul {0} {0}", ret="elem", args=["elem", "elem"], require={1: "(add (@one A) (@one A))"})}),
+    funcs=[
+        dict(name="mesh1_new", file=MS1, impl=M1_GEN, fn="new", locals={"vars": "vv"}),
+        dict(name="mesh1_nnodes", file=MS1, impl=M1_GEN, fn="nnodes"),
+        dict(name="mesh1_nvars", file=MS1, impl=M1_GEN, fn="nvars"),
+        dict(name="mesh1_coord", file=MS1, impl=M1_GEN, fn="coord"),
+        dict(name="mesh1_set_nodes_vars", file=MS1, impl=M1_GEN, fn="set_nodes_vars"),
+        dict(name="mesh1_get_nodes_vars", file=MS1, impl=M1_GEN, fn="get_nodes_vars"),
+        dict(name="mesh1_nodes", file=MS1, impl=M1_GEN, fn="nodes"),
+        dict(name="mesh1_index", file=MS1, impl=r"^<T,X>Index<usize>forMesh1D<T,X>$", fn="index"),
+        dict(name="mesh1_interp", file=MS1, impl=r"^Mesh1D<f64,f64>$", fn="get_interpolated_vars"),
+        dict(name="mesh1_trapezium", file=MS1, impl=r"^Mesh1D<f64,f64>$", fn="trapezium"),
+        dict(name="mesh2_new", file=MS2, impl=M2_GEN, fn="new", locals={"vars": "vv"}),
+        dict(name="mesh2_nvars", file=MS2, impl=M2_GEN, fn="nvars"),
+        dict(name="mesh2_nnodes", file=MS2, impl=M2_GEN, fn="nnodes"),
+        dict(name="mesh2_coord", file=MS2, impl=M2_GEN, fn="coord"),
+        dict(name="mesh2_xnodes", file=MS2, impl=M2_GEN, fn="xnodes"),
+        dict(name="mesh2_ynodes", file=MS2, impl=M2_GEN, fn="ynodes"),
+        dict(name="mesh2_set_nodes_vars", file=MS2, impl=M2_GEN, fn="set_nodes_vars"),
+        dict(name="mesh2_get_nodes_vars", file=MS2, impl=M2_GEN, fn="get_nodes_vars"),
+        dict(name="mesh2_assign", file=MS2, impl=M2_GEN, fn="assign"),
+        dict(name="mesh2_cross_section_xnode", file=MS2, impl=M2_GEN, fn="cross_section_xnode"),
+        dict(name="mesh2_cross_section_ynode", file=MS2, impl=M2_GEN, fn="cross_section_ynode"),
+        dict(name="mesh2_var_as_matrix", file=MS2, impl=M2_GEN, fn="var_as_matrix"),
+        dict(name="mesh2_apply", file=MS2, impl=M2_GEN, fn="apply"),
+        dict(name="mesh2_trapezium", file=MS2, impl=r"^Mesh2D<f64>$", fn="trapezium"),
+        dict(name="mesh2_square_trapezium", file=MS2, impl=r"^Mesh2D<f64>$", fn="square_trapezium"),
+        dict(name="mesh2_index", file=MS2, impl=r"^<T>Index<\(usize,usize\)>forMesh2D<T>$", fn="index"),
+    ])
